@@ -86,6 +86,18 @@ def witness_cases():
     for o9, o10 in ((1, 1), (1, 0), (0, 1), (0, 0)):
         out.append(mk_case(10, [(1, 1)] * 9 + [(o9, 6), (o10, 1)], True, None))
         out.append(mk_case(12, [(1, 1)] * 9 + [(o9, 6), (1, 2), (o9, 7), (o10, 1), (o10, 2)], True, None))
+    # the original of a straggler FAILS while its backup is still running, and the backup keeps straggling for further
+    # rounds (then succeeds / fails / is slow again): the survivor must not get another backup (<= 2 submissions per input)
+    for n, fast in ((10, 1), (12, 1), (14, 2)):
+        for d_orig, d_backup in ((7, 10), (8, 20), (12, 9), (9, 40)):
+            for o_backup in (1, 0):
+                for third in ((1, 1), (0, 1), (1, 30)):
+                    sc = [(1, fast)] * (n - 1) + [(0, d_orig * fast), (o_backup, d_backup * fast), third, third]
+                    out.append(mk_case(n, sc, True, None))
+    # ... the same with the straggler in the middle, another straggler that succeeds, and under batching
+    out.append(mk_case(12, [(1, 1)] * 4 + [(0, 8)] + [(1, 1)] * 6 + [(1, 30), (1, 12), (1, 5), (1, 1), (0, 1)], True, None))
+    out.append(mk_case(20, [(1, 1)] * 9 + [(0, 8)] + [(1, 2)] * 10 + [(1, 15), (1, 1), (1, 1)], True, 10))
+    out.append(mk_case(22, [(0, 9)] + [(1, 1)] * 10 + [(1, 2)] * 11 + [(0, 25), (1, 1), (1, 1)], True, 11))
     return out
 
 
@@ -96,10 +108,35 @@ def gen_small(rng):
     return mk_case(n, script, rng.random() < 0.5, bs)
 
 
+def gen_twinfail(rng):
+    """one or two stragglers whose ORIGINAL fails while the backup is still pending; the backup is itself slow (several
+    more wait rounds) and then succeeds or fails; whatever is submitted after that is quick, slow or failing.  This is the
+    situation in which only the `backups` entry of the pair keeps the input from being submitted a third time."""
+    n = rng.randint(10, 16)
+    unit = rng.choice([1, 1, 2])
+    fast = rng.choice([[1], [1, 1, 2], [1, 2]])
+    nslow = rng.choice([1, 1, 1, 2])
+    slow = set(rng.sample(range(n), nslow))
+    script = []
+    for i in range(n):
+        if i in slow:
+            script.append((rng.random() < 0.15, unit * rng.choice([7, 8, 9, 10, 12, 16])))
+        else:
+            script.append((rng.random() < 0.98, unit * rng.choice(fast)))
+    for j in range(nslow):          # the backups of the stragglers: slow
+        script.append((rng.random() < 0.6, unit * rng.choice([8, 10, 14, 20, 30, 45])))
+    for _ in range(5):              # anything submitted after that
+        script.append((rng.random() < 0.7, unit * rng.choice([1, 1, 2, 5, 12, 30])))
+    bs = rng.choice([None, None, None, n, n + 5, 10])
+    return mk_case(n, script, True, bs)
+
+
 def gen_big(rng):
     """>= 10 inputs so that should_launch_backup can fire; a few stragglers; backups that tie with / beat / lose to
     their original, or fail; optional batching (>= 10 so that the first batch alone allows backups)."""
-    kind = rng.choice(["plain", "plain", "batch", "batch", "fail"])
+    kind = rng.choice(["plain", "plain", "batch", "batch", "fail", "twinfail", "twinfail", "twinfail"])
+    if kind == "twinfail":
+        return gen_twinfail(rng)
     if kind == "batch":
         bs = rng.choice([10, 10, 11, 12, 15])
         n = rng.randint(bs, 30)
